@@ -36,8 +36,9 @@ Definition cuts_ok tbl data rb (cuts : list (nat * (nat * (bool * bool)))) : boo
 """
 
 
-def read_cut(data):
-    """(records yielded, outcome) with outcome in clean / raised / notstream."""
+def read_cut(data, peek=None):
+    """(records yielded, outcome) with outcome in clean / raised / notstream.  With peek=j the reader is consumed in two
+    passes: the first `for` loop is left (break) after j records, a second one continues on the same reader."""
     from flow.record import RecordStreamReader
     out = []
     try:
@@ -49,6 +50,11 @@ def read_cut(data):
     try:
         with warnings.catch_warnings():
             warnings.simplefilter("ignore")
+            if peek is not None:
+                for r in rd:
+                    out.append(r)
+                    if len(out) >= peek:
+                        break
             for r in rd:
                 out.append(r)
     except Exception:  # noqa
@@ -107,9 +113,27 @@ def fixed_streams():
         [c1(a=["x"], b="y", _generated=t0), c2(a="p", listb="q", _generated=t0), c2(a="r", listb="s", _generated=t0)],
         [a(1), GroupedRecord("fs/grp", [b(1), a(2)]), b(2)],
     ]
+    # one record holding PARTIALLY filled values of the structured field types (a record "partially filled" on reading would
+    # go unnoticed if every written value were complete): digests with one or two of the three hashes, both path / command
+    # flavours, both address families, a timestamp with an offset, a big integer
+    from flow.record.fieldtypes import command as _command, path as _path
+    zoo = RecordDescriptor("zoo/partial", [("digest", "d1"), ("digest", "d2"), ("digest", "d3"), ("digest[]", "dl"), ("path", "p"),
+                                           ("path", "wp"), ("command", "wc"), ("net.ipaddress", "i4"), ("net.ipaddress", "i6"),
+                                           ("datetime", "dt"), ("varint", "big"), ("float", "f"), ("bytes", "b"), ("uint16[]", "ul")])
+    md5, sha1, sha256 = "d41d8cd98f00b204e9800998ecf8427e", "da39a3ee5e6b4b0d3255bfef95601890afd80709", "e3b0c442" * 8
+    z = zoo(d1=(None, None, sha256), d2=(md5, None, sha256), d3=(None, sha1, None), dl=[(None, None, sha256), (md5, None, None)],
+            p="/etc/x", wp=_path.from_windows("C:\\t\\y"), wc=_command.from_windows("cmd.exe /c dir"), i4="10.1.2.3", i6="fe80::1",
+            dt=pydt.datetime(2022, 3, 4, 5, 6, 7, 890, tzinfo=pydt.timezone(pydt.timedelta(hours=-3, minutes=-30))),
+            big=-(2 ** 70), f=-0.0, b=b"\x00\xff", ul=[0, 65535], _generated=t0)
+    seqs.append([z, a(1)])
     out = []
     for items in seqs:
         out.append((items, [recgen.obs_item(x) for x in items], sc.write_stream_bytes(items)))
+    # two streams one after the other in one file (cat a.records b.records; a second writer appending): the second header
+    # and the repeated definitions are skipped, every record of both parts is read
+    for first, second in ((seqs[0], seqs[1]), (seqs[4], seqs[2])):
+        items = first + second
+        out.append((items, [recgen.obs_item(x) for x in items], sc.write_stream_bytes(first) + sc.write_stream_bytes(second), "concat"))
     return out
 
 
@@ -130,7 +154,7 @@ def gen_streams(ctx, n):
         if len(data) > (700 if ctx.tier == "quick" else 1500):
             continue
         out.append((items, obs, data))
-    return out
+    return [t if len(t) == 4 else t + ("single",) for t in out]
 
 
 class FailingFile(io.RawIOBase):
@@ -157,6 +181,7 @@ class FailingFile(io.RawIOBase):
 
 def check_stream(ctx, items, obs, data, gz):
     """Every cut offset; returns (list of (k, n, clean, notstream), error or None)."""
+    from flow.record import GroupedRecord, Record
     want = [recgen.canon(recgen.obs_item(x, True)) for x in items]
     ends = item_frame_ends(data, len(items))
     boundaries = set(frame_ends(data))
@@ -164,6 +189,9 @@ def check_stream(ctx, items, obs, data, gz):
     for k in range(len(data) + 1):
         got, oc = read_cut(data[:k])
         ctx.count_case(("cut", len(data), k, data[:24]), nontrivial=(k not in boundaries and k != 0))
+        foreign = [x for x in got if not isinstance(x, (Record, GroupedRecord))]
+        if foreign:
+            return cuts, "cut at %d of %d: the reader yields an object that is not a record: %r" % (k, len(data), foreign[0])
         gotc = [recgen.canon(recgen.obs_item(x, True)) for x in got]
         complete = sum(1 for e in ends if e <= k)
         if gotc != want[:len(gotc)]:
@@ -173,6 +201,14 @@ def check_stream(ctx, items, obs, data, gz):
         if k in boundaries and k >= 19 and oc != "clean":
             return cuts, "cut at frame boundary %d: reading %s instead of ending cleanly" % (k, oc)
         cuts.append((k, len(got), oc == "clean", oc == "notstream"))
+        # the same bytes consumed in two passes (peek at the first record, leave the loop, carry on): nothing may be skipped
+        if got and (k == len(data) or k % 7 == 0):
+            for peek in {1, len(got)}:
+                got2, oc2 = read_cut(data[:k], peek=peek)
+                ctx.count_case(("cut-two-pass", len(data), k, peek, data[:24]))
+                if [recgen.canon(recgen.obs_item(x, True)) for x in got2] != gotc or oc2 != oc:
+                    return cuts, ("cut at %d of %d read in two passes (the first loop left after %d record(s), a second loop over the same "
+                                  "reader): %d records / %s instead of %d / %s" % (k, len(data), peek, len(got2), oc2, len(got), oc))
     return cuts, None
 
 
@@ -325,11 +361,11 @@ def check_dropped_frames(ctx, items, data):
 def explore(ctx):
     streams = gen_streams(ctx, 5 if ctx.tier == "quick" else 40)
     terms, metas = [], []
-    for items, obs, data in streams:
+    for items, obs, data, kind in streams:
         cuts, err = check_stream(ctx, items, obs, data, False)
         if not err:
             err = check_gzip_cuts(ctx, items, data)
-        if not err:
+        if not err and kind == "single":
             err = check_failing_writes(ctx, items, data)
         dropped = []
         if not err:
